@@ -22,7 +22,7 @@ RULE = ("a valid generated module (all kinds, comment-rich layout) and a fault p
         "runs also under all / some include_undocumented_* flags off and with the faulty file first or in the middle of "
         "several command-line inputs or in a subdirectory (-r); independently, a run that succeeds while ANTLR reports 'token recognition error' is a violation. Non-trivial: an "
         "effective fault; distinct by (kind, context class, module hash)")
-RULE_MORE = 'settings variants with a logging section at DEBUG (console or log file) besides the include_undocumented_* vectors.'
+RULE_MORE = 'settings variants with a logging section at DEBUG (console or log file) besides the include_undocumented_* vectors. Later: quiet logging configurations; link modes; 1..512 faulty inputs on one command line of a real subprocess.'
 ASSUMPTIONS = ["the reference lexer decides which mutants are invalid; disputed mutants (cmake -P reports no parse error for a "
                "parse-level fault) are dropped and counted, more than 0.5% is a harness error",
                "invalid escape sequences are judged by the grammar of cmake-language(7) (CMake reports them only when the "
